@@ -105,6 +105,10 @@ def units(tier, seed):
     for k5, eng in enumerate(shapes_h1() + shapes_h2()[:: (2 if tier == "thorough" else 5)]):
         descs.append(dict(engines=list(eng), gens=2, box=boxes[k5 % 2], obj="intpen", maximize=bool(k5 % 2), Mh=3, seed=s + k5 % 3, sprout={"kind": ("simple", "nbc")[k5 % 2], "L": 2},
                           pop=(6, 10)[k5 % 2]))
+    # beyond the small scope (hmsmc/scale.py): run once each
+    from ..scale import big_population_worlds, high_dimension_worlds, long_local_search_worlds
+
+    descs += big_population_worlds(tier, seed) + high_dimension_worlds(tier, seed) + long_local_search_worlds(tier, seed)[:1]
     us = [{"kind": "run", "descs": c} for c in chunks(descs, 25)]
     rshapes = rep_shapes() if tier == "thorough" else rep_shapes()[14:]
     for k, eng in enumerate(rshapes):
